@@ -203,6 +203,51 @@ theorem kinds_inv_iff (kindOf : String → Option Implementation.Kind) (refs : L
     Implementation.kindsInv kindOf refs = true ↔ ∀ t ∈ refs, Implementation.Spec.RefsRightKind kindOf t :=
   Implementation.kindsInv_iff kindOf refs
 
+/-! ### growth 2: pairwise distinct names and applied directives -/
+
+/-- the model schema with its built lists (fields / enum values / members / interfaces / input fields of
+    each definition, as produced by `collect_sticky` / `extend_sticky`), the argument names of each field
+    or directive definition, and the directive applications of each location -/
+structure MSchemaG extends MSchemaF where
+  /-- the name lists of the built schema -/
+  builtLists : List (List SchemaBuild.Comp)
+  /-- argument names, one list per field / directive definition -/
+  argNameLists : List (List Standalone.Name)
+  /-- `schema.directive_definitions.get` -/
+  dirDef : Standalone.Name → Option Standalone.DirDef
+  /-- the directives applied at each location of the document -/
+  applications : List (Standalone.Loc × List Standalone.Dir)
+
+def AcceptsG (limit : Nat) (M : MSchemaG) : Prop :=
+  AcceptsF limit M.toMSchemaF ∧
+  -- every list of the schema was built by the sticky insertion, starting from the empty list
+  (∀ l ∈ M.builtLists, ∃ dup origin errs items, l = (SchemaBuild.extendSticky dup origin [] errs items).1) ∧
+  (∀ ns ∈ M.argNameLists, DirApps.argDefDups [] ns = 0) ∧
+  (∀ la ∈ M.applications, DirApps.schemaDirDiags M.dirDef la.1 la.2 = [])
+
+def InvG (M : MSchemaG) : Prop :=
+  InvF M.toMSchemaF ∧
+  -- names in every list are pairwise distinct
+  (∀ l ∈ M.builtLists, (l.map (·.name)).Nodup) ∧
+  (∀ ns ∈ M.argNameLists, ns.Nodup) ∧
+  -- every applied directive is defined and allowed at its location (and unique unless repeatable, with
+  -- defined, unique and sufficient arguments)
+  (∀ la ∈ M.applications, DirApps.Spec.DirectivesValid M.dirDef la.1 la.2)
+
+/-- `valid_implies_invariants_full` extended with "names in every list are pairwise distinct" (from the
+    build: `C14.build_first_definition_wins`; argument names from `C14.argument_definitions_unique_iff`) and
+    "every applied directive is defined and allowed at its location" (`C14.directive_applications_rule_iff_spec`). -/
+theorem valid_implies_invariants_full2 (limit : Nat) (M : MSchemaG) (h : AcceptsG limit M) : InvG M := by
+  obtain ⟨hF, hbuilt, hargs, happs⟩ := h
+  refine ⟨valid_implies_invariants_full limit M.toMSchemaF hF, ?_, ?_, ?_⟩
+  · intro l hl
+    obtain ⟨dup, origin, errs, items, rfl⟩ := hbuilt l hl
+    exact C14.build_first_definition_wins dup origin items [] errs (by simp)
+  · intro ns hns
+    exact (C14.argument_definitions_unique_iff ns).mp (hargs ns hns)
+  · intro la hla
+    exact (C14.directive_applications_rule_iff_spec M.dirDef la.1 la.2).mp (happs la hla)
+
 -- Non-vacuity
 example : Accepts 32 ⟨[[⟨true, 1⟩], [⟨false, 0⟩]], [⟨true, []⟩, ⟨true, [0]⟩, ⟨false, [1, 0]⟩],
     some (.object 2), none, none⟩ := by
